@@ -329,6 +329,44 @@ def scrape_own():
     return facts, problems
 
 
+def scrape_java():
+    """JavaFacts.v: how the Java emitters walk parameters and encode data (C18)."""
+    facts, problems = {}, []
+    impl = read("idlc_codegen_java/src/interface/functions/implementation.rs")
+    inv = read("idlc_codegen_java/src/interface/functions/invoke.rs")
+    prims = read("idlc_codegen_java/src/interface/mink_primitives.rs")
+    types = read("idlc_codegen_java/src/types.rs")
+    walk = r"idlc_codegen::functions::visit_params_with_bundling\(function, &mut me\)"
+    facts["java_proxy_shared_walk"] = bool(re.search(walk, impl))
+    facts["java_skel_shared_walk"] = bool(re.search(walk, inv))
+    facts["java_little_endian"] = bool(re.search(r'BYTE_ORDER: &str = "ByteOrder\.LITTLE_ENDIAN"', prims))
+    # every data visitor of the proxy takes exactly one bi / bo index (one slot per visited event)
+    one = True
+    for fn, ctr in (("visit_input_primitive_buffer", "bi_idx"), ("visit_input_untyped_buffer", "bi_idx"), ("visit_input_struct_buffer", "bi_idx"),
+                    ("visit_input_primitive", "bi_idx"), ("visit_input_bundled", "bi_idx"), ("visit_input_big_struct", "bi_idx"),
+                    ("visit_output_primitive_buffer", "bo_idx"), ("visit_output_untyped_buffer", "bo_idx"), ("visit_output_struct_buffer", "bo_idx"),
+                    ("visit_output_primitive", "bo_idx"), ("visit_output_bundled", "bo_idx"), ("visit_output_big_struct", "bo_idx")):
+        b = visitor_body(impl, fn)
+        if len(re.findall(r"self\.%s\(\)" % ctr, b)) != 1:
+            one = False
+    facts["java_proxy_one_slot_per_event"] = one
+    carriers = {"Uint8": "byte", "Int8": "byte", "Uint16": "char", "Int16": "char", "Uint32": "int", "Int32": "int", "Uint64": "long", "Int64": "long"}
+    ok = True
+    for k, v in carriers.items():
+        if not re.search(r"Primitive::%s\b[^=]*=> \"%s\"" % (k, v), types):
+            ok = False
+    facts["java_carriers_same_width"] = ok
+    return facts, problems
+
+
+def render_java(facts):
+    out = ["(* GENERATED by lib/translate.py: parameter walk, byte order and carrier types of the Java emitters. *)",
+           "Require Import Base.", ""]
+    for k in sorted(facts):
+        out.append("Definition %s : bool := %s." % (k, "true" if facts[k] else "false"))
+    return "\n".join(out) + "\n"
+
+
 def render_own(facts):
     out = ["(* GENERATED by lib/translate.py: ownership idioms of the object visitors (C, C++, Rust emitters) and of ProxyBase::consume. *)",
            "Require Import Base.", ""]
@@ -387,6 +425,11 @@ def main(outdir, probe=None):
     F.items["own"] = of
     if not oproblems:
         write_if_changed(os.path.join(outdir, "OwnFacts.v"), render_own(of))
+    jf, jproblems = scrape_java()
+    F.problems += jproblems
+    F.items["java"] = jf
+    if not jproblems:
+        write_if_changed(os.path.join(outdir, "JavaFacts.v"), render_java(jf))
     cf, cproblems = scrape_conc()
     F.problems += cproblems
     F.items["conc"] = cf
